@@ -303,8 +303,48 @@ def no_panic(ctx, name, cases, outs):
             ctx.direct_failure(name + "-nopanic", {"case": c[:2000]}, "implementation " + o)
 
 
+# ------------------------------------------------------------------------------------------ extraction self-check
+def extraction_selfcheck(ctx):
+    """a few build cases evaluated INSIDE Coq (vm_compute on the model) are compared with the extracted driver's answers:
+    a wrong extraction, OCaml glue or int conversion shows up as a disagreement"""
+    rng = ctx.rng
+    samples = []
+    for m, n, e in [(2, 5, None), (0, 9, 1), (1, 14, 3), (2, 40, 0)]:
+        samples.append((payload(rng, m, n, "ascii" if m == 2 else "random"), e))
+    defs = []
+    for i, (data, e) in enumerate(samples):
+        lst = "[" + "; ".join(str(b) for b in data) + "]%N"
+        ecl = "None" if e is None else "Some (ecl_of_idx %d)" % e
+        defs.append("Eval vm_compute in (match build_unchecked %s {| o_mode := None; o_ecl := %s; o_version := None; o_mask := None |} with "
+                    "Ok q => [N.of_nat (q_version q); N.of_nat (q_mask q); N.of_nat (mode_idx (q_mode q)); hsh (flat_map (map cell_byte) (q_mat q))] | _ => [] end)." % (lst, ecl))
+    src = ("From Coq Require Import NArith List.\nImport ListNotations.\nFrom FQ Require Import Lib.ListX Model.Types Model.Qr.\n"
+           "Definition hsh (l : list N) : N := fold_left (fun a b => (a * 31 + b) mod 1000000007)%N l 7%N.\n" + "\n".join(defs) + "\n")
+    fn = os.path.join(WORK, "selfcheck.v")
+    open(fn, "w").write(src)
+    rc, out, _ = sh("coqc -q -Q %s FQ %s" % (COQ, fn), cwd=WORK, timeout=600)
+    coq_vals = [[int(x) for x in re.findall(r"(\d+)%N", blk)] for blk in out.split("= ")[1:]]
+    cases = [build_case(None, e, None, None, data) for data, e in samples]
+    outs = run_exe(FQM, cases, "selfcheck", shards=1)
+    ctx.count_oracle("extraction_selfcheck", len(cases))
+    ok = rc == 0 and len(coq_vals) == len(cases)
+    for i, o in enumerate(outs):
+        b = parse_build_out(o)
+        if not ok or b is None:
+            ok = False
+            break
+        hv = 7
+        for k in range(0, len(b["hex"]), 2):
+            hv = (hv * 31 + int(b["hex"][k:k + 2], 16)) % 1000000007
+        if coq_vals[i] != [b["v"], b["k"], b["m"], hv]:
+            ok = False
+    if not ok:
+        ctx.tie_failures.append({"stream": "extraction-selfcheck", "case": "vm_compute in Coq vs extracted driver disagree or could not run: %s" % out[-300:]})
+    ctx.notes.append("extraction self-check: %d build cases evaluated by vm_compute inside Coq agree with the extracted driver: %s" % (len(cases), ok))
+
+
 # ------------------------------------------------------------------------------------------ C01
 def run_C01(ctx):
+    extraction_selfcheck(ctx)
     n = 600 if ctx.quick else 12000
     cases = gen_builds(ctx, n, all_cells=not ctx.quick)
     if ctx.quick:
@@ -674,6 +714,7 @@ def run_C09(ctx):
 
 # ------------------------------------------------------------------------------------------ C10
 def run_C10(ctx):
+    extraction_selfcheck(ctx)
     rng = ctx.rng
     cp = caps(ctx)
     cases = gen_builds(ctx, 500 if ctx.quick else 10000, all_cells=not ctx.quick)
